@@ -16,6 +16,7 @@ import (
 	"net/url"
 	"os"
 	"strings"
+	"time"
 
 	el "github.com/hashicorp/eventlogger"
 	ce "github.com/hashicorp/eventlogger/formatter_filters/cloudevents"
@@ -106,6 +107,7 @@ type Obs struct {
 	Frame   bool              `json:"frame"`
 	Calls   []string          `json:"signer_inputs"`
 	Fresh   string            `json:"fresh,omitempty"`
+	TimeOK  bool              `json:"time_ok"`
 	Panic   string            `json:"panic,omitempty"`
 }
 
@@ -252,6 +254,25 @@ func runCase(c Case) (lit string, obs Obs, nontrivial bool) {
 	for _, b := range calls {
 		obs.Calls = append(obs.Calls, hex.EncodeToString(b))
 	}
+	// the time member read back with Go's time parser must be the event's instant
+	obs.TimeOK = true
+	if e != nil && err == nil {
+		key := "cloudevents-json"
+		if c.Format == "cloudevents-text" {
+			key = "cloudevents-text"
+		}
+		if doc, has := e.Formatted[key]; has {
+			obs.TimeOK = false
+			var m map[string]interface{}
+			if json.Unmarshal(doc, &m) == nil {
+				if ts, isStr := m["time"].(string); isStr {
+					if t2, perr := time.Parse(time.RFC3339Nano, ts); perr == nil && t2.Equal(tm) {
+						obs.TimeOK = true
+					}
+				}
+			}
+		}
+	}
 	// the fresh id is the oracle's answer: read it back from the emitted document
 	fresh := []byte("unobserved")
 	if (c.PKind == "plain" || c.PKind == "data") && e != nil {
@@ -288,10 +309,10 @@ func runCase(c Case) (lit string, obs Obs, nontrivial bool) {
 	}
 	lit = fmt.Sprintf("CCe %d {| k_cfg := {| k_nil := %s; k_source := %s; k_schema := %s; k_format := %s; k_pred := %d; k_signer := %d; k_tag := %s; k_types := [%s] |};\n"+
 		"   k_evnil := %s; k_type := %s; k_time := %s; k_payload := {| y_id := %s; y_data := %s |}; k_pre := %s; k_fresh := %s;\n"+
-		"   k_obs := {| b_err := %s; b_out := %d; b_table := %s; b_frame := %s; b_calls := [%s] |} |}",
+		"   k_obs := {| b_err := %s; b_out := %d; b_table := %s; b_frame := %s; b_calls := [%s]; b_time_ok := %s |} |}",
 		c.ID, hc.B(c.NilNode), jgen.OptBytes(srcTok, srcOK), jgen.OptBytes(schTok, schOK), fmtLit(c.Format), c.Pred, c.Signer, jgen.Bytes(tag), strings.Join(typesLit, "; "),
 		hc.B(c.NilEvent), jgen.Bytes(ty), jgen.OptBytes(c.Time.Text(), c.Time.Encodable()), idLit, dataLit, preLit, jgen.Bytes(fresh),
-		hc.B(obs.Err), obs.Out, jgen.TableLit(after, extra), hc.B(obs.Frame), strings.Join(callsLit, "; "))
+		hc.B(obs.Err), obs.Out, jgen.TableLit(after, extra), hc.B(obs.Frame), strings.Join(callsLit, "; "), hc.B(obs.TimeOK))
 	nontrivial = !c.NilNode && !c.NilEvent && srcOK && len(srcTok) > 0 && fmtLit(c.Format) != "FBad" && !(schOK && len(schTok) == 0)
 	return
 }
